@@ -56,6 +56,7 @@ func FuzzC10(f *testing.F) {
 		currentCaseJSON = cj
 		writeCurrent("C10", cj)
 		x := &Ctx{Prop: "C10"}
+		currentCtx = x
 		p.Check(c, x)
 		fuzzReport(t, "C10", c, x)
 	})
@@ -71,6 +72,7 @@ func FuzzC01(f *testing.F) {
 		currentCaseJSON = cj
 		writeCurrent("C01", cj)
 		x := &Ctx{Prop: "C01"}
+		currentCtx = x
 		p.Check(c, x)
 		st.record(x, cj)
 		if x.Failed() {
